@@ -190,7 +190,7 @@ func liveEdgeValue(f *FA, v ssa.Value) ssa.Value {
 	}
 	var live []ssa.Value
 	for i, e := range phi.Edges {
-		if !f.Dead[phi.Block().Preds[i]] {
+		if !f.predDead(phi.Block(), i) {
 			live = append(live, e)
 		}
 	}
@@ -356,58 +356,93 @@ func (c *Ctx) aesCbcDecryptRules(r *Report, prefix string) {
 		if !isMk {
 			continue
 		}
-		// result
-		okR, detail := false, "the result is not buffer[:len-(last+1)]"
-		var lastLoad ssa.Value
-		for _, b := range fn.Blocks {
-			ret, ok := b.Instrs[len(b.Instrs)-1].(*ssa.Return)
-			if !ok || !isNilConst(ret.Results[1]) {
-				continue
+		// result (followed into a helper the buffer is handed to: return strip(buffer))
+		okR, detail, nLoads := c.stripShape(fn, buf, 0)
+		r.Check(okR, rule, name+": strips last octet + 1", c.Pos(fn.Pos()), detail, detail)
+		r.Check(nLoads == 1, rule, name+": any pad content is accepted", c.Pos(fn.Pos()), "exactly one octet of the decrypted buffer is inspected (the pad length)", fmt.Sprintf("%d octets of the decrypted buffer are inspected", nLoads))
+	}
+}
+
+// stripShape: every success return of fn yields buf[:len(buf)-(int(buf[len(buf)-1])+1)], possibly through a
+// module helper that receives buf as an argument; also counts the element loads of buf.
+func (c *Ctx) stripShape(fn *ssa.Function, buf ssa.Value, depth int) (bool, string, int) {
+	f := c.NewFA(fn)
+	okR, detail := false, "the result is not buffer[:len-(last+1)]"
+	nLoads := 0
+	for _, ref := range *buf.Referrers() {
+		if ia, ok := ref.(*ssa.IndexAddr); ok {
+			for _, r2 := range *ia.Referrers() {
+				if u, ok := r2.(*ssa.UnOp); ok && u.Op == token.MUL {
+					nLoads++
+				}
 			}
-			sl, ok := ret.Results[0].(*ssa.Slice)
-			if !ok || sl.X != ssa.Value(buf) || sl.Low != nil || sl.High == nil {
-				continue
-			}
-			// High = len(buf) - (x + 1), x = load buf[len(buf)-1]
-			h := f.LFOf(sl.High)
-			rest := h.add(f.SliceLen(buf), -1).add(konst(1), 1) // = -x
-			if id, ok := singleAtom(rest.scale(-1)); ok {
-				// find the load that produced atom id
-				for v, lf := range f.lfMemo {
-					if id2, ok := singleAtom(lf); ok && id2 == id {
-						if bs, _, ok := isElemLoadAny(v); ok && bs == ssa.Value(buf) {
-							lastLoad = v
-						}
-						if cv, ok := v.(*ssa.Convert); ok {
-							if bs, _, ok := isElemLoadAny(cv.X); ok && bs == ssa.Value(buf) {
-								lastLoad = cv.X
+		}
+	}
+	nRet, nGood := 0, 0
+	for _, b := range fn.Blocks {
+		if f.Dead[b] {
+			continue
+		}
+		ret, ok := b.Instrs[len(b.Instrs)-1].(*ssa.Return)
+		if !ok || len(ret.Results) != 2 || !isNilConst(ret.Results[1]) {
+			// "return helper(buf)": both results come from one call
+			if ok && len(ret.Results) == 2 && depth < 2 {
+				if ex, isEx := ret.Results[0].(*ssa.Extract); isEx {
+					if call, isCall := ex.Tuple.(*ssa.Call); isCall {
+						if h := call.Call.StaticCallee(); h != nil && c.InModule(h) && h.Blocks != nil {
+							for k, a := range call.Call.Args {
+								if a == buf && k < len(h.Params) {
+									nRet++
+									ok2, d2, n2 := c.stripShape(h, h.Params[k], depth+1)
+									nLoads += n2
+									if ok2 {
+										nGood++
+										detail = d2 + " (in " + c.FuncName(h) + ")"
+									}
+								}
 							}
 						}
 					}
 				}
 			}
-			if lastLoad != nil {
-				_, idx, _ := isElemLoadAny(lastLoad)
-				if f.LFOf(idx).key() == f.SliceLen(buf).add(konst(1), -1).key() {
-					okR = true
-					detail = "result = buffer[:len(buffer) - (int(buffer[len-1]) + 1)]"
-				}
-			}
+			continue
 		}
-		r.Check(okR, rule, name+": strips last octet + 1", c.Pos(fn.Pos()), detail, detail)
-		// no other element of buf is read
-		nLoads := 0
-		for _, ref := range *buf.Referrers() {
-			if ia, ok := ref.(*ssa.IndexAddr); ok {
-				for _, r2 := range *ia.Referrers() {
-					if u, ok := r2.(*ssa.UnOp); ok && u.Op == token.MUL {
-						nLoads++
+		nRet++
+		sl, ok := ret.Results[0].(*ssa.Slice)
+		if !ok || sl.X != buf || sl.Low != nil || sl.High == nil {
+			continue
+		}
+		// High = len(buf) - (x + 1), x = load buf[len(buf)-1]
+		var lastLoad ssa.Value
+		h := f.LFOf(sl.High)
+		rest := h.add(f.SliceLen(buf), -1).add(konst(1), 1) // = -x
+		if id, ok := singleAtom(rest.scale(-1)); ok {
+			for v, lf := range f.lfMemo {
+				if id2, ok := singleAtom(lf); ok && id2 == id {
+					if bs, _, ok := isElemLoadAny(v); ok && bs == buf {
+						lastLoad = v
+					}
+					if cv, ok := v.(*ssa.Convert); ok {
+						if bs, _, ok := isElemLoadAny(cv.X); ok && bs == buf {
+							lastLoad = cv.X
+						}
 					}
 				}
 			}
 		}
-		r.Check(nLoads == 1, rule, name+": any pad content is accepted", c.Pos(fn.Pos()), "exactly one octet of the decrypted buffer is inspected (the pad length)", fmt.Sprintf("%d octets of the decrypted buffer are inspected", nLoads))
+		if lastLoad != nil {
+			_, idx, _ := isElemLoadAny(lastLoad)
+			if f.LFOf(idx).key() == f.SliceLen(buf).add(konst(1), -1).key() {
+				nGood++
+				detail = "result = buffer[:len(buffer) - (int(buffer[len-1]) + 1)]"
+			}
+		}
 	}
+	okR = nRet > 0 && nGood == nRet
+	if !okR && nGood > 0 {
+		detail = "some success return is not buffer[:len-(last+1)]"
+	}
+	return okR, detail, nLoads
 }
 
 // isElemLoadAny: v = *(&base[idx]) with arbitrary idx.
